@@ -43,6 +43,39 @@ theorem handleReplyStep_pendOk {cs cs' : CtxSt} {id : ReqId} {ok : Bool} {more :
           obtain ⟨rfl, -, -⟩ := hs
           constructor <;> intros <;> simp only [upd] at * <;> grind
 
+/-- marking pending objects as cancelled does not affect the table structure -/
+theorem PendOk.cancel {cs : CtxSt} (h : PendOk cs) (l : Key → List Rcv) (g : ReqId → PObj → Bool) :
+    PendOk { cs with lsubs := l, pobj := fun pid => (cs.pobj pid).map (fun po => po.cancelIf (g pid po)) } := by
+  constructor
+  · intro id pid hid
+    have := h.byId_some id pid hid
+    simp only
+    cases hp : cs.pobj pid <;> simp_all
+  · intro id pid po hid hpo
+    simp only at hpo
+    cases hp : cs.pobj pid with
+    | none => simp [hp] at hpo
+    | some po0 =>
+      simp only [hp, Option.map_some, Option.some.injEq] at hpo
+      subst hpo
+      simpa using h.byId_key id pid po0 hid hp
+  · exact h.byId_inj
+  · intro id hid
+    have := h.fresh id hid
+    exact ⟨this.1, by simp [this.2]⟩
+  · intro k pid hk
+    have := h.byKey_some k pid hk
+    simp only
+    cases hp : cs.pobj pid <;> simp_all
+  · intro k pid po hk hpo
+    simp only at hpo
+    cases hp : cs.pobj pid with
+    | none => simp [hp] at hpo
+    | some po0 =>
+      simp only [hp, Option.map_some, Option.some.injEq] at hpo
+      subst hpo
+      simpa using h.byKey_obj k pid po0 hk hp
+
 set_option maxHeartbeats 1000000 in
 theorem pendInv_micro {s s' : State} {th : Th} {ch ch2 : Nat} {op : MOp} {rest : List MOp} {o : Out}
     (h : PendInv s) (hs : microStep s th ch ch2 op rest = some (s', o)) : PendInv s' := by
@@ -65,6 +98,7 @@ theorem pendInv_micro {s s' : State} {th : Th} {ch ch2 : Nat} {op : MOp} {rest :
   all_goals (try (rename_i e; subst e))
   all_goals (try exact h0)
   all_goals (try exact handleReplyStep_pendOk h0 ‹handleReplyStep _ _ _ = some _›)
+  all_goals (try exact h0.cancel _ _)
   all_goals (try (constructor <;> intros <;> simp only [upd, peerRemovedStep] at * <;> grind))
 
 
